@@ -134,7 +134,7 @@ pub fn run(cx: &mut Ctx) {
             // -------------------------------------------------------------- encryption forms
             let mut dryoc_seals: Vec<Vec<u8>> = Vec::new();
             for e in encs.iter().filter(|e| fam_ok(e.family)) {
-                let p = Plain { nonce, key, pk: rpk, sk: ssk, msg: msg.clone() };
+                let p = Plain { nonce, key, pk: rpk, sk: ssk, msg: crate::mon::aead::Msg::new(&msg) };
                 let case = || json!({"form":e.name,"case":base});
                 let sig = format!("C01|{}", e.name);
                 let Some(r) = call(cx, &sig, e.name, case, || (e.f)(&p)) else { continue };
